@@ -440,7 +440,28 @@ fn sig_from_args(r: &str, s: &str, parity: &str) -> Result<Signature, String> {
     Ok(Signature(sig, rid))
 }
 
+/// `seq <hex(line 1)> <hex(line 2)> …`: the lines are handled one after the other by this thread; the answer is
+/// `ok <hex(answer 1)> <hex(answer 2)> …`.  Makes "what the process handled before" part of the input, so that a
+/// history-dependent answer has a replayable witness.
+fn run_seq(line: &str) -> String {
+    let mut out = vec!["ok".to_string()];
+    for h in line.split(' ').skip(1) {
+        let sub = match unhex(h).ok().and_then(|b| String::from_utf8(b).ok()) {
+            Some(s) => s,
+            None => return "harness-error harness: bad seq element".into(),
+        };
+        if sub.starts_with("seq") {
+            return "harness-error harness: nested seq".into();
+        }
+        out.push(hx(run_line(&sub).as_bytes()));
+    }
+    out.join(" ")
+}
+
 fn run_line(line: &str) -> String {
+    if line.starts_with("seq ") {
+        return run_seq(line);
+    }
     let r = panic::catch_unwind(AssertUnwindSafe(|| run_op(line)));
     match r {
         Ok(Ok(fields)) => {
